@@ -222,6 +222,28 @@ func c02Observe(h http.Handler, m *model, keys []string) {
 	}
 }
 
+// c02Cleanup: a bucket whose objects have all been deleted can be deleted, and
+// is gone afterwards (checked for every bucket the model still has).
+func c02Cleanup(h http.Handler, m *model, keys []string) {
+	if c02Single {
+		return
+	}
+	for _, b := range c02Buckets {
+		if _, ok := m.buckets[b]; !ok {
+			continue
+		}
+		for _, k := range keys {
+			vsym.Assert(Do(h, Req{Method: "DELETE", Path: "/" + b + "/" + k}).Code() == 204, "C02/cleanup/delete-object")
+		}
+		r := Do(h, Req{Method: "DELETE", Path: "/" + b})
+		vsym.Assert(r.Code() == 204, "C02/cleanup/emptied-bucket-deletable")
+		if m.auto {
+			continue // a probe would re-create it
+		}
+		vsym.Assert(Do(h, Req{Method: "HEAD", Path: "/" + b}).Code() == 404, "C02/cleanup/bucket-gone")
+	}
+}
+
 // VH_C02_mem: every operation sequence of the given length on the memory backend.
 func VH_C02_mem() {
 	auto := vsym.Choice("autobucket", 2) == 1
@@ -238,6 +260,7 @@ func VH_C02_mem() {
 		c02Step(h, m, keys, i)
 	}
 	c02Observe(h, m, keys)
+	c02Cleanup(h, m, keys)
 	vsym.Reach("C02/done")
 }
 
@@ -272,5 +295,6 @@ func VH_C02() {
 		c02Step(h, m, keys, i)
 	}
 	c02Observe(h, m, keys)
+	c02Cleanup(h, m, keys)
 	vsym.Reach("C02/done")
 }
